@@ -3,6 +3,12 @@
 // `iwkv_next_level` (IW_TESTS) can force skip-list levels.
 #include "kv/iwkv.c"
 #include "hcommon.h"
+#ifdef LOCKORD
+extern const char *lockord_ctx;
+void lockord_before_open(void);
+void lockord_after_open(IWKV kv_);
+void lockord_dump(void);
+#endif
 #include <signal.h>
 #include <unistd.h>
 #include <sys/stat.h>
@@ -148,6 +154,9 @@ int main(int argc, char **argv) {
     int n = toks(line, tv, 16);
     if (n == 0) { printf("\n"); continue; }
     const char *op = tv[0];
+#ifdef LOCKORD
+    { static char ctxbuf[16]; snprintf(ctxbuf, sizeof(ctxbuf), "%s", op); lockord_ctx = ctxbuf; }
+#endif
     uint8_t *kb = 0, *vb = 0;
     if (!strcmp(op, "open")) {          // open <path> <wal> <rdonly> <trunc> <notrim>
       if (kv) { // a script (e.g. a shrunk one) may reopen without closing: never wait for our own file lock
@@ -161,11 +170,20 @@ int main(int argc, char **argv) {
                              .wal = { .enabled = atoi(tv[2]) != 0, .savepoint_timeout_sec = 100000,
                                       .checkpoint_timeout_sec = 200000, .wal_buffer_sz = 64 * 1024,
                                       .checkpoint_buffer_sz = 32 * 1024 * 1024 } };
+#ifdef LOCKORD
+      lockord_before_open();
+#endif
       rc = iwkv_open(&o, &kv);
+#ifdef LOCKORD
+      lockord_after_open(rc ? 0 : kv);
+#endif
       printf("%s\n", rcname(rc));
     } else if (!strcmp(op, "close")) {
       closeall();
       rc = iwkv_close(&kv);
+#ifdef LOCKORD
+      lockord_dump();
+#endif
       printf("%s\n", rcname(rc));
     } else if (!strcmp(op, "db")) {     // db <slot> <dbid> <mode3>
       int s = atoi(tv[1]);
